@@ -734,6 +734,59 @@ ARGMUT_EXEMPT = {
 }
 
 
+def _reaching_param(fn, node, name, params, depth=0):
+    """The parameter that the local `name` is bound to where `node`
+    runs, judged from the nearest binding of `name` before `node` in the
+    enclosing statement lists (`d = definitions` in one arm of a match
+    and `d = dict()` in another: only the first arm edits the
+    argument).  None when that binding is anything else, or sits in a
+    nested block whose execution is not certain."""
+    if depth > 4:
+        return None
+    # the chain of (statement list, index) that encloses `node`
+    chain = []
+
+    def find(stmts):
+        for i, s in enumerate(stmts):
+            if s is node or any(x is node for x in ast.walk(s)):
+                chain.append((stmts, i))
+                for fld in ('body', 'orelse', 'finalbody'):
+                    sub = getattr(s, fld, None)
+                    if isinstance(sub, list) and sub and isinstance(
+                            sub[0], ast.stmt):
+                        if any(x is node for b in sub
+                               for x in ast.walk(b)):
+                            find(sub)
+                            return
+                for h in getattr(s, 'handlers', []):
+                    if any(x is node for x in ast.walk(h)):
+                        find(h.body)
+                        return
+                for c in getattr(s, 'cases', []):
+                    if any(x is node for x in ast.walk(c)):
+                        find(c.body)
+                        return
+                return
+    find(fn.body)
+    for stmts, i in reversed(chain):
+        for s in reversed(stmts[:i]):
+            binds = [x for x in ast.walk(s) if isinstance(
+                x, ast.Name) and x.id == name and isinstance(
+                    x.ctx, ast.Store)]
+            if not binds:
+                continue
+            if isinstance(s, ast.Assign) and len(
+                    s.targets) == 1 and isinstance(
+                        s.targets[0], ast.Name) and isinstance(
+                            s.value, ast.Name):
+                if s.value.id in params:
+                    return s.value.id
+                return _reaching_param(fn, s, s.value.id, params,
+                                       depth + 1)
+            return None
+    return None
+
+
 def r_argmut(P, R):
     """A public operation, and any operation that `_try_to_reorder` may
     run twice, does not edit a container it was handed: the caller's
@@ -755,20 +808,9 @@ def r_argmut(P, R):
         if not params:
             continue
         n += 1
-        # local aliases: `d = param`
+        # local aliases: `d = param`, decided per edit by the binding
+        # that reaches it (see `_reaching_value`)
         alias = {p: p for p in params}
-        for s in sorted((x for x in au.walk_no_defs(f.node)
-                         if isinstance(x, ast.Assign)),
-                        key=lambda x: x.lineno):
-            if len(s.targets) == 1 and isinstance(
-                    s.targets[0], ast.Name) and isinstance(
-                        s.value, ast.Name) and s.value.id in alias:
-                # an alias only if this is the one binding of the name
-                # (`d = definitions` in one arm and `d = dict()` in
-                # another is not an alias where the dict is filled)
-                if s.targets[0].id not in params and len(
-                        au.assignments_to(f.node, s.targets[0].id)) == 1:
-                    alias[s.targets[0].id] = alias[s.value.id]
         # a parameter rebound to a fresh object before the edit is the
         # function's own
         rebound = dict()
@@ -785,17 +827,19 @@ def r_argmut(P, R):
                     node, ast.AugAssign) else node.targets
                 for t in tg:
                     if isinstance(t, ast.Subscript) and isinstance(
-                            t.value, ast.Name) and t.value.id in alias:
+                            t.value, ast.Name):
                         hit = t.value.id
             if isinstance(node, ast.Call) and isinstance(
                     node.func, ast.Attribute) and \
                     node.func.attr in MUTATORS and isinstance(
-                        node.func.value, ast.Name) and \
-                    node.func.value.id in alias:
+                        node.func.value, ast.Name):
                 hit = node.func.value.id
             if hit is None:
                 continue
-            prm = alias[hit]
+            prm = alias.get(hit) or _reaching_param(f.node, node, hit,
+                                                    params)
+            if prm is None:
+                continue
             if prm in rebound and rebound[prm] <= node.lineno:
                 continue
             if (f.qualname, prm) in ARGMUT_EXEMPT:
